@@ -529,6 +529,37 @@ func (e *Engine) reflectTypeMethod(rt RT, m string, a []Val) Val {
 		return e.K(64, uint64(t.Underlying().(*types.Array).Len()))
 	case "String":
 		return e.stringVal(t.String())
+	case "Size":
+		return e.K(64, uint64(e.sizes.Sizeof(t)))
+	case "Align", "FieldAlign":
+		return e.K(64, uint64(e.sizes.Alignof(t)))
+	case "Bits":
+		if w, _, ok := intWidth(t); ok && w > 0 {
+			return e.K(64, uint64(w))
+		}
+		e.goPanic("reflect: Bits of non-arithmetic Type %v", t)
+	case "PkgPath":
+		if n, ok := t.(*types.Named); ok && n.Obj().Pkg() != nil {
+			return e.stringVal(n.Obj().Pkg().Path())
+		}
+		return e.stringVal("")
+	case "Comparable":
+		return e.KB(types.Comparable(t))
+	case "NumMethod":
+		// reflect counts exported methods only, except for interface types
+		ms := types.NewMethodSet(t)
+		_, isIface := t.Underlying().(*types.Interface)
+		n := 0
+		for i := 0; i < ms.Len(); i++ {
+			if isIface || ms.At(i).Obj().Exported() {
+				n++
+			}
+		}
+		return e.K(64, uint64(n))
+	case "AssignableTo":
+		return e.KB(types.AssignableTo(t, a[0].(Iface).v.(RT).t))
+	case "ConvertibleTo":
+		return e.KB(types.ConvertibleTo(t, a[0].(Iface).v.(RT).t))
 	}
 	e.unsupported("reflect.Type.%s on %v", m, t)
 	return nil
